@@ -347,4 +347,51 @@ Proof.
   - destruct IH as (c & IH). exists c. rewrite (xserialize_S words pu). cbv beta iota. rewrite Hroot. exact IH.
 Qed.
 
+(* ---------- a one-of whose member is selected by the REFLECTED TYPE of a native struct value (findUnderlyingType) ----------
+   Validate puts the {oneof[k]} marker in front of the member's path, Serialize passes the member's error on unchanged. *)
+Definition xnative_struct (v : gval) (tv : gtype) : Prop :=
+  (exists n fs, v = VStruct (TStruct n) fs /\ tv = TStruct n) \/
+  (exists n o, v = VPtr (TPtr (TStruct n)) o /\ tv = TPtr (TStruct n)).
+
+Lemma xoneof_find_native f e types ik field inlined v tv key member :
+  xnative_struct v tv ->
+  find (fun ks => match xstruct_rtype e (snd ks) with Some t => gtype_eqb t tv | None => false end) types = Some (key, member) ->
+  xoneof_find words pu (S f) e types ik field inlined v = Ok (key, member, v).
+Proof.
+  intros Hn Hf. rewrite (xoneof_find_S words pu).
+  destruct Hn as [(n & fs & -> & ->) | (n & o & -> & ->)]; cbn [kind_of kind_of_type type_of]; rewrite Hf; reflexivity.
+Qed.
+
+Theorem struct_oneof_native_validate_path f e types ik field inlined v tv key member er :
+  xnative_struct v tv ->
+  find (fun ks => match xstruct_rtype e (snd ks) with Some t => gtype_eqb t tv | None => false end) types = Some (key, member) ->
+  xvalidate (S f) e member v = Err er ->
+  xvalidate (S (S f)) e (XOneOf types ik field inlined) v = Err (add_seg (oneof_seg key) er).
+Proof.
+  intros Hn Hf Hv. rewrite (xvalidate_S words pu). cbv beta iota.
+  rewrite (xoneof_find_native f e types ik field inlined v tv key member Hn Hf). cbn [bind]. rewrite Hv. reflexivity.
+Qed.
+
+Theorem struct_oneof_native_serialize_path f e types ik field inlined v tv key member er :
+  xnative_struct v tv ->
+  find (fun ks => match xstruct_rtype e (snd ks) with Some t => gtype_eqb t tv | None => false end) types = Some (key, member) ->
+  xserialize (S f) e member v = Err er ->
+  xserialize (S (S f)) e (XOneOf types ik field inlined) v = Err er.
+Proof.
+  intros Hn Hf Hv. rewrite (xserialize_S words pu). cbv beta iota.
+  rewrite (xoneof_find_native f e types ik field inlined v tv key member Hn Hf). cbn [bind]. rewrite Hv. reflexivity.
+Qed.
+
+(* no member has the value's type: reported at the one-of *)
+Theorem struct_oneof_native_no_member f e types ik field inlined v tv :
+  xnative_struct v tv ->
+  find (fun ks => match xstruct_rtype e (snd ks) with Some t => gtype_eqb t tv | None => false end) types = None ->
+  xvalidate (S (S f)) e (XOneOf types ik field inlined) v = Err (cerr ERepr) /\
+  xserialize (S (S f)) e (XOneOf types ik field inlined) v = Err (cerr ERepr).
+Proof.
+  intros Hn Hf. rewrite (xvalidate_S words pu), (xserialize_S words pu). cbv beta iota.
+  rewrite (xoneof_find_S words pu).
+  destruct Hn as [(n & fs & -> & ->) | (n & o & -> & ->)]; cbn [kind_of kind_of_type type_of]; rewrite Hf; split; reflexivity.
+Qed.
+
 End C17StructPos.
